@@ -890,6 +890,7 @@ class Atoms:
         sp = SPECIAL_URLS + (BRACKET_ODDITIES if brackets else [])
         self.specials = subset(rng, sp, lo, hi + 4)
         self.urls = [self.compose(rng) for _ in range(rng.randint(lo, hi))]
+        self.storm_auth = [self.authority(rng) for _ in range(2)]
         if rng.random() < 0.5:
             # both spellings of one equal value: 'scheme://authority' and 'scheme://authority/'
             sch = rng.choice(self.schemes)
@@ -989,6 +990,15 @@ class Atoms:
             s += "?" + rng.choice(self.qstrs)
         if rng.random() < 0.3:
             s += "#" + rng.choice(self.frags)
+        return s
+
+    def storm_string(self, rng):
+        """A fresh URL string (random path/query) on one of two per-run authorities: uncached as a
+        string, but its authority was most likely the one parsed just before."""
+        sch = rng.choice(self.schemes[:2])
+        s = (sch + ":" if sch else "") + "//" + rng.choice(self.storm_auth) + "/" + self.fuzz(rng, 1, 6).replace("#", "").replace("?", "")
+        if rng.random() < 0.3:
+            s += "?" + rng.choice(self.qstrs)
         return s
 
     def url_string(self, rng):
@@ -1167,7 +1177,10 @@ def gen_derivation(rng, at, live, slots=None):
             return {"op": name, "on": on, "args": [at.query_arg(rng, live)], "kwargs": {"a": "1"}}
         return {"op": name, "on": on, "args": [at.query_arg(rng, live)]}
     if r < 0.58:
-        return {"op": "without_query_params", "on": on, "args": [rng.choice(at.qkeys) for _ in range(rng.randint(0, 2))]}
+        names = [rng.choice(at.qkeys) for _ in range(rng.randint(0, 2))]
+        if names and rng.random() < 0.3:
+            names.append(names[0])  # the same name twice
+        return {"op": "without_query_params", "on": on, "args": names}
     if r < 0.63:
         return {"op": "with_fragment", "on": on, "args": [5 if bad else rng.choice(at.frags + [None])]}
     if r < 0.68:
